@@ -22,6 +22,8 @@ REVIEWED_STATE = {
     ("two/parser.py", "Base.subclasses"): "assigned a fresh dict at the start of ParserFactory._setup (registry enumeration)",
     ("common/utils.py", "_classes_cache"): "fparser1 helper (class registry of the legacy parser), not used by fparser2",
     ("common/splitline.py", "memo"): "memoisation of string_replace_map keyed by all arguments (pure function of them)",
+    ("common/splitline.py", "cached:string_replace_map"): "the only memoised function: returns (str, StringReplaceDict); the dict is only read by its callers "
+                                                           "(bounded cross-check: same source parsed twice, bounded_trees C09)",
     ("two/Fortran2008/block_stmt_r808.py", "Block_Stmt.counter"): "synthetic names of unnamed BLOCKs (excluded by the property)",
     ("two/Fortran2003.py", "Block_Stmt.counter"): "synthetic names of unnamed BLOCKs (excluded by the property)",
     ("two/pattern_tools.py", "Pattern._compiled_pattern"): "per-object cache of a compiled regex (function of the pattern text)",
@@ -115,6 +117,12 @@ def main(argv):
                 # closure state of decorators (memoize)
                 if qual == "memoize":
                     globals_written.append((rel, "memo", qual))
+                # every function that keeps results between calls (memoize / functools caches): process-wide state whose values
+                # callers must not be able to change (a cached mutable result that a caller edits in place leaks between parses)
+                for dec in fnode.decorator_list:
+                    dn = ast.unparse(dec.func if isinstance(dec, ast.Call) else dec)
+                    if dn.split(".")[-1] in ("memoize", "lru_cache", "cache", "cached_property"):
+                        globals_written.append((rel, "cached:" + qual, qual))
     # 1. inventory
     for rel, name, qual in sorted(set(globals_written)):
         key = (rel, name)
